@@ -110,6 +110,7 @@ Inductive msg :=
   | MInputVolatile (p : str)
   | MVolatileHasSinks (p : str)
   | MBoot
+  | MSelfDefine (l : str)
   (* PathError raised by File.adjust_label inside Trellis.create *)
   | MBadName (p : str)
   | MBadDir (p : str)
@@ -190,6 +191,7 @@ Definition render (m : msg) : str :=
   | MInputVolatile p => s2l "Input is volatile: " ++ p
   | MVolatileHasSinks p => s2l "An input to an existing step cannot be volatile: " ++ p
   | MBoot => s2l "Boot step already defined."
+  | MSelfDefine l => s2l "Step (" ++ l ++ s2l ") cannot define itself."
   | MBadName p => s2l "Invalid file name: " ++ p
   | MBadDir p => s2l "Invalid file name (directory): " ++ p
   | MNoSuchStep l => s2l "<model> no such step: " ++ l
@@ -564,6 +566,7 @@ Definition define_step (c : creator) (lbl : str) (inps outs vols : list str) (st
   let outs := sort_uniq outs in
   let vols := sort_uniq vols in
   bind (dir_inputs inps) (fun _ =>
+  if creator_eqb c (CStep lbl) then Err (MSelfDefine lbl) else
   bind (glob_check (globs st) lbl (sort_uniq (outs ++ vols))) (fun _ =>
   bind (match lookup lbl (steps st) with
         | None => Ok tt
